@@ -26,27 +26,37 @@ RULES = {
     "B-drain": "rules_both.rule_b_drain",
     "B-into": "rules_both.rule_b_into",
     "B-comp": "rules_both.rule_b_comp",
+    "V-own": "rules_vocab.rule_v_own",
+    "V-unsafe": "rules_vocab.rule_v_unsafe",
+    "V-impl": "rules_vocab.rule_v_impl",
+    "V-unreach": "rules_vocab.rule_v_unreach",
+    "E9-set": "rules_shape.rule_e9_setexpr",
+    "E9-bool": "rules_shape.rule_e9_bool",
+    "D-set": "rules_set.rule_d_set",
+    "Z-ser": "rules_serde.rule_z_ser",
+    "Z-de": "rules_serde.rule_z_de",
+    "H-agree": "rules_hasher.rule_h_agree",
 }
 
 # property -> rule ids (quick tier).  Extended as engines land.
 PROPERTY_RULES = {
-    "C01": ["B-any", "B-find", "B-len", "B-clear", "K-new", "K-use", "K-field", "T-grow", "P-zst"],
+    "C01": ["B-any", "B-find", "B-len", "B-clear", "K-new", "K-use", "K-field", "T-grow", "H-agree", "P-zst"],
     "C02": ["W-bound", "W-reentry", "W-read"],
     "C03": ["M-carry", "T-mover", "T-free", "P-only", "T-grow"],
     "C04": ["T-grow"],
-    "C05": ["P-rem", "P-fill", "P-only", "P-new", "K-new", "K-use", "K-field", "T-grow"],
-    "C06": ["B-clear", "B-drain", "B-into", "P-rem", "P-fill"],
-    "C07": ["P-rem", "P-fill"],
+    "C05": ["P-rem", "P-fill", "P-only", "P-new", "K-new", "K-use", "K-field", "T-grow", "V-unsafe", "V-unreach", "V-impl"],
+    "C06": ["V-own", "B-clear", "B-drain", "B-into", "P-rem", "P-fill"],
+    "C07": ["P-rem", "P-fill", "V-own", "H-agree"],
     "C08": ["B-comp", "B-drain", "B-into", "K-field"],
     "C09": ["P-rem", "K-use"],
     "C10": ["O-wrap"],
-    "C11": ["B-clear"],
-    "C12": ["K-new", "K-use", "P-rem"],
-    "C13": [],
-    "C14": [],
-    "C15": ["K-new", "K-field", "B-comp"],
-    "C16": [],
-    "C17": ["O-wrap", "P-rem", "P-fill"],
+    "C11": ["B-clear", "H-agree"],
+    "C12": ["K-new", "K-use", "P-rem", "H-agree"],
+    "C13": ["D-set", "E9-set", "E9-bool"],
+    "C14": ["E9-bool", "H-agree"],
+    "C15": ["K-new", "K-field", "B-comp", "V-impl"],
+    "C16": ["Z-ser", "Z-de"],
+    "C17": ["O-wrap", "P-rem", "P-fill", "V-unreach"],
 }
 
 # extra rules that only run in the thorough tier
